@@ -118,6 +118,7 @@ type renderCtx struct {
 	prelude []string
 	nvar    int
 	leafNo  int
+	shared  map[string]string
 }
 
 func (rc *renderCtx) leaf(v *exVal) string {
@@ -127,6 +128,19 @@ func (rc *renderCtx) leaf(v *exVal) string {
 		rc.nvar++
 		name := fmt.Sprintf("变量%d", rc.nvar)
 		rc.prelude = append(rc.prelude, fmt.Sprintf("令%s = %s", name, leafText(v, 0)))
+		return name
+	case 8: // through variables, EQUAL leaves through ONE variable (the same variable on both sides of an operator)
+		txt := leafText(v, 0)
+		if rc.shared == nil {
+			rc.shared = map[string]string{}
+		}
+		if n, ok := rc.shared[txt]; ok {
+			return n
+		}
+		rc.nvar++
+		name := fmt.Sprintf("同量%d", rc.nvar)
+		rc.shared[txt] = name
+		rc.prelude = append(rc.prelude, fmt.Sprintf("令%s = %s", name, txt))
 		return name
 	case 0:
 		return leafText(v, 0)
@@ -625,6 +639,52 @@ func handleIExpr(raw json.RawMessage) interface{} {
 			wants = append(wants, w)
 			wantErrs = append(wantErrs, we)
 			rows = append(rows, value.NewArray(items))
+		}
+		// the SAME variable in every slot: `X op X` for every pool value X
+		if c.Style2%2 == 0 {
+			expr3 := expr
+			for k := nslot; k >= 1; k-- {
+				expr3 = strings.ReplaceAll(expr3, fmt.Sprintf("槽%d", k), "同")
+			}
+			src3 := "输入表\n" + probePrelude + "如何算？\n    输入 同\n    输出 " + expr3 + "\n    拦截异常：\n        输出“ERR”\n\n令果 = 【】\n以行遍历表：\n    以果（后增：（算：行））\n输出果\n"
+			pool := []string{"0", "-0", "1", "-7", "0.5", "0.1", "1e308", "5e-324", "9007199254740993", "+Inf", "-Inf", "NaN"}
+			var items []r.Element
+			var w3 []ival
+			var e3 []bool
+			for _, sv := range pool {
+				x := parseDouble(sv)
+				env := make([]float64, nslot)
+				for k := range env {
+					env[k] = x
+				}
+				w, we, _ := runLowered(c.Code, env)
+				w3 = append(w3, w)
+				e3 = append(e3, we)
+				items = append(items, value.NewNumber(x))
+			}
+			o3 := zn.RunScript(src3, map[string]r.Element{"表": value.NewArray(items)})
+			runs++
+			if got, ok := o3.Val["v"].([]interface{}); o3.Obs != "value" || !ok || len(got) != len(pool) {
+				ms = append(ms, map[string]interface{}{"kind": "ieee:same-variable:" + o3.Obs, "expr": expr3, "vals": pool, "want": "a list of results", "got": lastLine(o3.Msg)})
+			} else {
+				for i, it := range got {
+					v, _ := it.(zn.V)
+					b, _ := json.Marshal(v)
+					okv := true
+					switch {
+					case e3[i]:
+						okv = v["t"] == "str" && v["v"] == "ERR"
+					case w3[i].t == "num":
+						okv = v["t"] == "num" && v["s"] == zn.NumStr(w3[i].f)
+					case w3[i].t == "bool":
+						okv = v["t"] == "bool" && v["v"] == w3[i].b
+					}
+					if !okv {
+						ms = append(ms, map[string]interface{}{"kind": "ieee:same-variable:value-mismatch", "expr": expr3 + " with 同 = " + pool[i], "vals": []string{pool[i]}, "want": fmt.Sprintf("%v %v %v", w3[i].t, w3[i].f, w3[i].b), "got": string(b)})
+						break
+					}
+				}
+			}
 		}
 		o := zn.RunScript(src2, map[string]r.Element{"表": value.NewArray(rows)})
 		runs++
